@@ -13,7 +13,7 @@ theorem TInv.client_err (s0 : Nat) : ∀ a ∈ clErr s0, TInv.Kept a := by
   have hnn1 := nv_none rt (s0 + 1)
   have hs0 := h s0
   have hsn := h (nv rt s0)
-  obtain ⟨i0, f1, f2, f3, d1, d2, d3, s1, s2, s3, sv, g4, g5, g8, p, jb, j1, j2, j3, ae, q, c1, c2, c3⟩ := h s'
+  obtain ⟨i0, f1, f2, f3, d1, d2, d3, s1, s2, s3, sv, g4, g5, g8, p, jb, j1, j2, j3, ae, q, nr, c1, c2, c3⟩ := h s'
   unfold clErr at ha
   each_action ha
   client_expose
